@@ -89,6 +89,16 @@ func (g G) Has(sub string) bool {
 	return false
 }
 
+// HasExact reports whether g has a frame equal to fn (not a "created by" line).
+func (g G) HasExact(fn string) bool {
+	for _, f := range g.Frames {
+		if f == fn {
+			return true
+		}
+	}
+	return false
+}
+
 // LibFrames returns the frames that belong to the library under test.
 func (g G) LibFrames() []string {
 	var out []string
